@@ -14,11 +14,14 @@ use crate::wal::{WalError, WalIoOperation, WalReplayIoStep};
 pub(crate) struct SegmentWriter {
     writer: BufWriter<File>,
     segment_id: u64,
+    // length of the segment file up to the last entry that was completely written and synced
+    synced_len: u64,
 }
 
 impl SegmentWriter {
     pub(crate) fn new(segment_id: u64, file: File) -> Self {
-        Self { writer: BufWriter::new(file), segment_id }
+        let synced_len = file.metadata().map_or(0, |m| m.len());
+        Self { writer: BufWriter::new(file), segment_id, synced_len }
     }
 
     pub(crate) fn segment_id(&self) -> u64 {
@@ -61,6 +64,7 @@ impl SegmentWriter {
             path: None,
             source: e,
         })?;
+        self.synced_len += entry.len() as u64;
 
         tracing::trace!(
             version = op_version,
@@ -70,6 +74,19 @@ impl SegmentWriter {
             "Written WAL entry"
         );
         Ok(())
+    }
+
+    // discards an entry whose write or sync failed: whatever is left of it in the buffer or in
+    // the file is dropped, so it can neither reach the log together with a later entry nor be
+    // replayed after a restart although the operation was reported as failed.
+    pub(crate) fn discard_failed_entry(self) {
+        let (file, _unflushed) = self.writer.into_parts();
+        if let Err(e) = file.set_len(self.synced_len).and_then(|()| file.sync_data()) {
+            tracing::error!(
+                "Failed to discard a failed WAL entry in segment {}: {e}",
+                self.segment_id
+            );
+        }
     }
 
     // seals the segment by writing a sentinel and then closing.
